@@ -669,8 +669,7 @@ Traversal:
                 // whereas foo[*] can support _any_ traversal.
                 marker := p.Read() // eat star
                 trav := make(hcl.Traversal, 0, 1)
-                var firstRange, lastRange hcl.Range
-                firstRange = p.NextRange()
+                var lastRange hcl.Range
                 lastRange = marker.Range
                 for p.Peek().Type == TokenDot {
                     dot := p.Read()
@@ -750,10 +749,13 @@ Traversal:
                 if len(trav) == 0 {
                     travExpr = itemExpr
                 } else {
+                    // Like for a full splat (foo[*].bar), the range of the
+                    // per-item traversal starts at the splat marker that
+                    // its source (the anonymous symbol) stands for.
                     travExpr = &RelativeTraversalExpr{
                         Source:    itemExpr,
                         Traversal: trav,
-                        SrcRange:  hcl.RangeBetween(firstRange, lastRange),
+                        SrcRange:  hcl.RangeBetween(itemExpr.SrcRange, lastRange),
                     }
                 }
 
